@@ -104,7 +104,7 @@ BASE = {"src/a.py": H + "a = 1\n", "src/b.c": "int b;\n", "LICENSES/MIT.txt": "m
 
 def bounds(tier, seed):
     return {"toml_keys": KEYS, "toml_shapes": list(SHAPES), "toml_pairs": tier == "thorough", "broken_toml": list(BROKEN_TOML), "broken_dep5": list(BROKEN_DEP5),
-            "expression_tokens": EXPR_TOKENS, "expression_max_tokens": 3 if tier == "quick" else 4, "broken_templates": 8, "license_sibling_states": list(SIBLING_STATES), "gitmodules_shapes": list(GITMODULES), "gitignore_shapes": list(GITIGNORE), "byte_classes": list(byte_classes()), "commands": COMMANDS, "io_fault_errnos": ["EACCES", "ENOENT", "EISDIR", "EIO"],
+            "expression_tokens": EXPR_TOKENS, "expression_max_tokens": 3 if tier == "quick" else 4, "broken_templates": 9, "license_sibling_states": list(SIBLING_STATES), "gitmodules_shapes": list(GITMODULES), "gitignore_shapes": list(GITIGNORE), "byte_classes": list(byte_classes()), "commands": COMMANDS, "io_fault_errnos": ["EACCES", "ENOENT", "EISDIR", "EIO"],
             "io_faults": "every single k-th open" + (" and every pair" if tier == "thorough" else "")}
 
 
@@ -553,7 +553,7 @@ def run(tier, seed):
     return finish(
         ID, "fault_enumeration", MODULE, tier, seed, st, t0,
         rule=("every REUSE.toml key x every TOML value shape (root and nested file; pairs of keys: one key row per seed in quick, all in thorough), "
-              "15 structurally broken TOML files, 18 broken or odd dep5 files + conflicts, 16 .gitmodules and 9 .gitignore shapes inside a Git repository, 8 unloadable / unrenderable templates x 3 targets, every licence-expression token sequence up to the bound x {header, .license, REUSE.toml} x 4 commands, 7 odd states of FILE.license x 3 ways annotate gets to it, 11 hostile byte classes x {header, .license}, 5 LICENSES/ oddities, and an "
+              "15 structurally broken TOML files, 18 broken or odd dep5 files + conflicts, 16 .gitmodules and 9 .gitignore shapes inside a Git repository, 9 unloadable / unrenderable templates x 3 targets, every licence-expression token sequence up to the bound x {header, .license, REUSE.toml} x 4 commands, 7 odd states of FILE.license x 3 ways annotate gets to it, 11 hostile byte classes x {header, .license}, 5 LICENSES/ oddities, and an "
               "I/O fault (4 errnos) injected at the k-th open of a project file for every k (and every pair in thorough), each under 8 subcommands (4 for "
               "I/O faults); oracle: exit status in {0,1,2}, no escaping exception, configuration errors exit 2 naming the file, other files still reported; "
               "non-trivial = the malformed value / fault was actually reached"),
